@@ -199,6 +199,11 @@ def parseAskOp : List String → Option (Nat × Nat × Recv × Nat)
     | some n, some each, some r, some t =>
       if validEntry e && 1 ≤ n && n ≤ 64 && 1 ≤ each && each ≤ 100000 && 1 ≤ t then some (n, each, r, t) else none
     | _, _, _, _ => none
+  | ["askrestart", p, a] =>
+    -- asks of a restarted incarnation: judged as `a` asks of one asker to the echo receiver, generous timeout
+    match p.toNat?, a.toNat? with
+    | some p, some a => if p ≤ 32 && 1 ≤ a && a ≤ 64 then some (1, a, .echo, 60000000) else none
+    | _, _ => none
   | _ => none
 
 def parseAskObs (op out : List String) : Option AskObs := do
@@ -224,7 +229,15 @@ def askJudge : Suite where
       | none => ((), if out == ["bad-op"] then "ok" else "bad:malformed-op-accepted")
       | some _ =>
         match parseAskObs op out with
-        | some o => ((), askVerdict o)
+        | some o =>
+          let v := askVerdict o
+          if v ≠ "ok" then ((), v) else
+          match op with
+          | ["askrestart", p, _] =>
+            -- the asks that were outstanding when the actor restarted time out, each with its own timeout
+            ((), if kv out "ptimeout" == some p && kv out "launches" == some "2" then "ok"
+                 else "bad:outstanding-ask-across-restart-not-timed-out")
+          | _ => ((), "ok")
         | none => ((), "bad:unparsable-output")
     | [] => ((), "bad-op")
 
